@@ -23,6 +23,7 @@ DEFAULT_CFG = {
     "ticks": False,
     "hooks": False,
     "assets": False,
+    "cssvars": False,
     "idecho": False,
     "deps": False,
 }
@@ -401,6 +402,8 @@ class Builder:
             spec["data"].append([self.fresh("id"), ["id"]])
         if self.cfg["hooks"]:
             spec["hooks"] = {"before": self.chance(40), "after": self.chance(40), "tpl": self.chance(25)}
+        if self.cfg.get("cssvars") and self.chance(30):
+            spec["cssvars"] = True
         if self.cfg["assets"]:
             if self.chance(65):
                 spec["js"] = "  " if self.chance(8) else "/*js_%s*/" % name
